@@ -50,7 +50,7 @@ IdLen(v) == CASE v = "req.http.A" -> 10 [] v = "req.http.B" -> 10 [] v = "var.x"
               [] v = "request" -> 7 [] v = "timeout" -> 7 [] v = "quorum" -> 6 [] v = "backend" -> 7 [] v = "weight" -> 6
               [] v = "vcl_recv" -> 8
 LitLen(v) == CASE v = "10" -> 2 [] v = "1" -> 1 [] v = "8" -> 1 [] v = "16" -> 2 [] v = "401" -> 3 [] v = "50" -> 2
-               [] v = "1.5" -> 3 [] v = "0.25" -> 4
+               [] v = "1.5" -> 3 [] v = "0.25" -> 4 [] v = "0.1" -> 3 [] v = "9223372036854775807" -> 19
                [] OTHER -> 0                       \* "d<n>": an integer the encoder synthesises (no source literal)
 OpLen(v) == CASE v \in {"=", "+", "!", "~", "%", "-"} -> 1 [] OTHER -> 2
 
@@ -387,8 +387,10 @@ Op(v) == [k |-> "op", v |-> v]
 Bool(b) == [k |-> "bool", v |-> IF b THEN "true" ELSE "false"]
 Thorough == Tier = "thorough"
 
-Strs == {Str(""), Str("x")} \cup (IF Thorough THEN {Str("yz"), Str("e9"), Str("S65535"), Str("S65536")} ELSE {Str("S65536")})
-ELeaf == Strs \cup {Id("req.http.A"), IntL("10"), [k |-> "float", v |-> "1.5"], [k |-> "rtime", v |-> "10s"], Bool(TRUE)}
+Strs == {Str(""), Str("x"), Str("e9"), Str("S65536")} \cup (IF Thorough THEN {Str("yz"), Str("S65535")} ELSE {})
+\* 2^63-1 needs all 8 bytes of the INTEGER payload, 0.1 all 64 bits of the FLOAT payload
+ELeaf == Strs \cup {Id("req.http.A"), IntL("10"), IntL("9223372036854775807"), [k |-> "float", v |-> "1.5"], [k |-> "float", v |-> "0.1"],
+                    [k |-> "rtime", v |-> "10s"], Bool(TRUE)}
         \cup (IF Thorough THEN {Bool(FALSE), [k |-> "float", v |-> "0.25"], Id("var.x")} ELSE {})
 ESmall == {Id("req.http.A"), Str("x"), IntL("10")}
 Fcx(fn, args) == [k |-> "fcallx", fn |-> Id(fn), args |-> args]
